@@ -40,10 +40,24 @@ pub fn run(ctx: &mut Ctx) {
     ctx.run_cases("constant", n, false, |ctx, rng, idx| {
         let rate = RATES[idx % 6];
         let fperiod = rng.range(40, 480);
-        let f0 = match idx % 5 {
+        let f0 = match idx % 6 {
             0 => MIN_F0,
             1 => rate as f64 / 2.0,
             2 => rate as f64 / rng.range(2, 400) as f64, // integer period
+            5 => {
+                // integer period that is a multiple or a divisor of the frame period: pulses
+                // fall on frame boundaries
+                let t = match rng.below(4) {
+                    0 => fperiod,
+                    1 => 2 * fperiod,
+                    2 => 3 * fperiod,
+                    _ => {
+                        let divs: Vec<usize> = (2..=fperiod / 2).filter(|d| fperiod % d == 0).collect();
+                        if divs.is_empty() { fperiod } else { *rng.pick(&divs) }
+                    }
+                };
+                (rate as f64 / t as f64).clamp(MIN_F0, rate as f64 / 2.0)
+            }
             _ => rng.log_uniform(MIN_F0, rate as f64 / 2.0),
         };
         // T0 = rate / F0 with F0 = exp(log-F0) limited to 20 Hz..20 kHz, evaluated in f64 from
@@ -166,10 +180,16 @@ pub fn run(ctx: &mut Ctx) {
         let frames = rng.range(4, 40);
         // random F0 walk with unvoiced gaps
         let mut f = rng.log_uniform(60.0, (rate as f64 / 4.0).min(800.0));
+        // one case in five jumps between very low and very high F0 (the period falls by more
+        // than one new period per sample: the counter then holds several periods at once)
+        let extreme = idx % 5 == 4;
         let lf0s: Vec<f64> = (0..frames)
-            .map(|_| {
+            .map(|k| {
                 if rng.chance(0.15) {
                     NODATA
+                } else if extreme {
+                    f = if k % 2 == 0 { rng.uniform(20.0, 40.0) } else { rng.uniform(rate as f64 / 8.0, rate as f64 / 2.0) };
+                    f.ln()
                 } else {
                     f = (f * rng.uniform(0.7, 1.4)).clamp(30.0, rate as f64 / 2.0);
                     f.ln()
@@ -177,6 +197,36 @@ pub fn run(ctx: &mut Ctx) {
             })
             .collect();
         let x = render(rate, fperiod, 0, &lf0s, &[]);
+        // conservation over every voiced run: the pitch counter gains 1 per sample and loses
+        // height^2 (the period in force) per pulse, starts primed with the onset period and stays
+        // within [0, period): sum(x^2) = samples + onset period - final counter
+        {
+            let mut t = 0;
+            while t < frames {
+                if lf0s[t] == NODATA {
+                    t += 1;
+                    continue;
+                }
+                let start = t;
+                while t < frames && lf0s[t] != NODATA {
+                    t += 1;
+                }
+                let n = ((t - start) * fperiod) as f64;
+                let per = |l: f64| rate as f64 / clampf0(l.exp());
+                let onset = per(lf0s[start]);
+                let pmax = lf0s[start..t].iter().map(|l| per(*l)).fold(0.0f64, f64::max);
+                let sum: f64 = x[start * fperiod..t * fperiod].iter().map(|v| v * v).sum();
+                let (lo, hi) = (n + onset - pmax - 1.0, n + onset + 1e-6 * n);
+                ctx.count("voiced_runs_balanced", 1.0);
+                if sum < lo - 1e-6 * n || sum > hi {
+                    ctx.violation(
+                        "pulse-energy-not-conserved-over-a-voiced-run",
+                        J::obj().set("rate", rate).set("fperiod", fperiod).set("lf0", fvec(&lf0s, 40)).set("run", J::Arr(vec![J::from(start), J::from(t)])).set("sum_of_squares", sum).set("allowed", J::Arr(vec![J::Num(lo), J::Num(hi)])),
+                    );
+                    return;
+                }
+            }
+        }
         let period = |l: f64| if l == NODATA { 0.0 } else { rate as f64 / clampf0(l.exp()) };
         let descr = |extra: J| J::obj().set("rate", rate).set("fperiod", fperiod).set("lf0", fvec(&lf0s, 40)).set("observed", extra);
         let mut switches = 0;
@@ -241,7 +291,7 @@ pub fn run(ctx: &mut Ctx) {
                             }
                         }
                     }
-                    if gap < pmin.floor() - 1.0 || gap > pmax.ceil() + 1.0 {
+                    if !extreme && (gap < pmin.floor() - 1.0 || gap > pmax.ceil() + 1.0) {
                         ctx.violation(
                             "glide-pulse-gap",
                             descr(J::obj().set("frame", t).set("gap", gap).set("period_range", J::Arr(vec![J::Num(pmin), J::Num(pmax)]))),
